@@ -31,6 +31,9 @@ enum AView {
     /// `(resv G (views))`: a Resource created at the top of the render (outside every boundary) whose fetch completes when gate G
     /// opens, READ here by a dynamic view that shows nothing while it is loading and the views once it has a value
     ResView(u32, Vec<AView>),
+    /// `(live)`: a dynamic text showing a signal ("alive") that a cleanup callback of the surrounding scope sets to "gone": what is
+    /// rendered must be the state the render reached, not the state after its scopes were disposed
+    Live,
 }
 
 thread_local! {
@@ -40,7 +43,7 @@ thread_local! {
 /// create the resources of all `resv` nodes, in the current (render) scope
 fn prepare_resources(v: &AView, gates: &Gates) {
     match v {
-        AView::Text(_) => {}
+        AView::Text(_) | AView::Live => {}
         AView::El(_, ch) | AView::Dyn(ch) => ch.iter().for_each(|c| prepare_resources(c, gates)),
         AView::Sus(fb, ch) | AView::Trans(fb, ch) => {
             fb.iter().for_each(|c| prepare_resources(c, gates));
@@ -76,6 +79,7 @@ fn parse(s: &Sx) -> AView {
         "async" => AView::Async(l[1].num(), l[2].list().iter().map(parse).collect()),
         "dyn" => AView::Dyn(l[1].list().iter().map(parse).collect()),
         "resv" => AView::ResView(l[1].num(), l[2].list().iter().map(parse).collect()),
+        "live" => AView::Live,
         x => panic!("bad async view {x}"),
     }
 }
@@ -126,6 +130,11 @@ fn build(v: &AView, gates: &Gates) -> View {
             let (ch, gates) = (ch.clone(), gates.clone());
             View::from_dynamic(move || build_all(&ch, &gates))
         }
+        AView::Live => {
+            let s = sycamore_reactive::create_signal("alive".to_string());
+            sycamore_reactive::on_cleanup(move || s.set("gone".to_string()));
+            View::from_dynamic(move || View::from(s.get_clone()))
+        }
         AView::ResView(g, vs) => {
             let r = RESOURCES.with(|m| *m.borrow().get(g).expect("resource prepared"));
             let (vs, gates) = (vs.clone(), gates.clone());
@@ -149,7 +158,7 @@ fn build(v: &AView, gates: &Gates) -> View {
 
 fn gates_of(v: &AView, out: &mut Vec<u32>) {
     match v {
-        AView::Text(_) => {}
+        AView::Text(_) | AView::Live => {}
         AView::El(_, ch) => ch.iter().for_each(|c| gates_of(c, out)),
         AView::Sus(fb, ch) | AView::Trans(fb, ch) => {
             fb.iter().for_each(|c| gates_of(c, out));
